@@ -433,6 +433,9 @@ where
                             // the contents of the new one.
                             stream.ldap = new_stream.ldap;
                             stream.rx = new_stream.rx;
+                            // The result of the page just consumed is not the result of the
+                            // Search; don't let finish() return it if the caller stops early.
+                            stream.res = None;
                             continue 'ent;
                         }
                     }
